@@ -55,7 +55,7 @@ func TestVF_C08(t *testing.T) {
 	r := vfkit.Start(t, "C08")
 	defer r.Finish()
 	r.Rule("case = one generated fixture (1..3 real blocks whose stored labels collide with external label names cluster/replica/region; a real tsdb.DB over the same block dirs plus head series) served by a TSDBStore with maxBytesPerFrame 1..200 whose external labels are replaced twice per fixture with SetExtLset " +
-		"(series split over frames) and a BucketStore (blocks with up to 3 different external label sets; lazy postings on/off) x generated requests (1..3 matchers, 35% on external label names incl. contradicting ones; replica-label lists over external/stored/colliding/absent names in 70%; SkipChunks 1/3). " +
+		"(series split over frames) and a BucketStore (blocks with up to 3 different external label sets; lazy postings on/off) and a PrometheusStore in front of an in-process fake Prometheus holding the fixture's stored label sets (remote read answered sampled or streamed, streamed series split over two frames in half of the requests, series API for SkipChunks; fake merges external labels with the stored label winning; external labels replaced once per fixture) x generated requests (1..3 matchers, 35% on external label names incl. contradicting ones; replica-label lists over external/stored/colliding/absent names in 70%; SkipChunks 1/3). " +
 		"oracle per returned frame: some member label set E of the store that the selectors do not contradict has every label of E not listed as replica label on the frame with E's value, and no label named in the replica list is on the frame; " +
 		"if the selectors contradict every member label set the answer has no series. evaluation = one store answer; distinct/non-trivial = answer with at least one frame, or a contradicting request")
 	nFix := r.N(8, 140)
